@@ -438,6 +438,17 @@ func rulePURARG(c *Ctx, r *Report) {
 						if pt, ok := al.Type().(*types.Pointer); ok && types.Identical(pt.Elem(), t.typ) {
 							key := "alloc|" + t.typ.Obj().Name() + "|" + fnName(fn)
 							if fn == t.home || c.reachedOnlyFrom(fn, t.home, 0) {
+								// per-call state must not be initialised with memory other calls can reach: what is stored
+								// into the fresh object (slices, maps, pointers) is fresh as well
+								shared := ""
+								for o := range oa.storedInto(al, map[ssa.Value]bool{}) {
+									if strings.HasPrefix(o, "global:") || strings.HasPrefix(o, "freevar:") {
+										shared = o
+									}
+								}
+								if shared != "" {
+									r.bad(rule, key+"|init", c.instrPos(in), fmt.Sprintf("the %s that %s allocates per call is initialised with memory reachable from %s: its methods write through it (appends into spare capacity, element stores), so concurrent or successive calls share and overwrite each other's state", t.typ.Obj().Name(), fnName(fn), shared))
+								}
 								r.ok(rule, key, c.instrPos(in), "allocated per call")
 							} else if fn == lr.Peek {
 								r.ok(rule, key, c.instrPos(in), "Peek's private copy")
